@@ -4,7 +4,6 @@ N=$1; CRATE=${2:-postcard}; FEAT=${3:-}
 cd /tmp/seed$N || exit 2
 DEMO=source/$CRATE/tests/seed_demo.rs
 [ -f $DEMO ] || cp demo.rs $DEMO
-git stash list | grep -q . && git stash pop >/dev/null 2>&1
 git diff --quiet -- source && { git apply patch.diff || exit 3; }
 mv $DEMO /tmp/seed${N}_demo.rs
 R1=$(cargo test --workspace --offline 2>&1 | grep -E '^test result' | awk '{p+=$4; f+=$6} END {print p" passed "f" failed"}')
